@@ -39,6 +39,7 @@ _counter = itertools.count()
 
 FRAMEWORKS = {"PyArrowTable": PyArrowTable, "PandasDataFrame": PandasDataFrame, "PythonDictFramework": PythonDictFramework}
 FW_SHORT = {"pa": PyArrowTable, "pd": PandasDataFrame, "py": PythonDictFramework}
+BASE_FRAMEWORKS = dict(FRAMEWORKS)  # the frameworks mloda itself ships (and that are installed here)
 # further compute frameworks (plain subclasses of PyArrowTable) for requests that need more than three frameworks
 for _i in range(2, 6):
     _c = type(f"VerifArrow{_i}", (PyArrowTable,), {"__module__": MODNAME})
